@@ -371,7 +371,7 @@ Section GlobText.
 
   (* `**` followed by `/` (the separator is consumed), called with the iterator after the first `*` *)
   Lemma handle_gstar_sep st i r last cur :
-    gmode st -> (match r with c :: _ => negb (N.eqb c 47) | [] => true end) = true ->
+    gmode st -> nosep_head (r) = true ->
     str_eqb (itext last) (xprint xDiv) = false ->
     handle_star cf st {| idx := i; rest := 42%N :: 47%N :: r |} (last :: cur) =
     (set_start_dir (reset_dir_track (set_matchbase st false)), {| idx := i + 1 + 1; rest := r |},
@@ -413,7 +413,7 @@ Section GlobText.
     T (xprint xDiv) :: (if str_eqb (itext last) [] then T (xprint xGstar) :: cur else T (xprint xGstar) :: T (xprint xNeedSep) :: cur).
 
   Lemma pstep_gstar_sep f st i r last cur :
-    gmode st -> (match r with c :: _ => negb (N.eqb c 47) | [] => true end) = true ->
+    gmode st -> nosep_head (r) = true ->
     str_eqb (itext last) (xprint xDiv) = false ->
     root_loop (S f) cf st {| idx := i; rest := 42%N :: 42%N :: 47%N :: r |} (last :: cur) =
     root_loop f cf (update_dir_state (set_start_dir (reset_dir_track (set_matchbase st false))))
@@ -459,7 +459,7 @@ Section GlobText.
   Definition uwf (u : unit_) : bool := seg_wf (snd u).
 
   Lemma punU_head units endg : (units <> [] \/ endg = true) -> Forall (fun u => uwf u = true) units ->
-    (match punU units endg with c :: _ => negb (N.eqb c 47) | [] => true end) = true.
+    nosep_head (punU units endg) = true.
   Proof.
     intros Hne W. destruct units as [|[g ts] more].
     - destruct Hne as [Hne|Hne]; [contradiction|]. subst endg. reflexivity.
@@ -625,7 +625,8 @@ Proof.
     + destruct Hne as [Hne|Hne]; [contradiction|]. subst. discriminate.
     + inversion W as [|? ? Wu _]; subst. unfold uwf, seg_wf in Wu. cbn [snd] in Wu. apply andb_true_iff in Wu. destruct Wu as [_ Wn].
       destruct g; [discriminate|]. destruct ts as [|t ts']; [discriminate|]. destruct t; cbn in E; discriminate.
-  - exists d, r. split; [reflexivity|]. apply negb_true_iff in H. apply N.eqb_neq in H. exact H.
+  - exists d, r. split; [reflexivity|]. unfold nosep_head in H. apply andb_true_iff in H. destruct H as [H _].
+    apply negb_true_iff in H. apply N.eqb_neq in H. exact H.
 Qed.
 
 Lemma punU_not_lone_bs units endg : Forall (fun u => uwf u = true) units -> str_eqb (punU units endg) [cBS] = false.
